@@ -81,6 +81,28 @@ func msmScalars(cls string, n, smallPct int, p *prg) []*big.Int {
 				v = scalarClass([]string{"r-1", "0", "1", "2^64", "h", "2^128", "r-2", "2^252", "lam", "3"}[i%10], p)
 			case "ones": // all c-bit windows all ones: every digit borrows
 				v = new(big.Int).Sub(new(big.Int).Lsh(big.NewInt(1), 252), big.NewInt(1))
+			case "oneword": // scalars that fit one 64-bit word, with the top windows of that word set (carry out of limb 0)
+				pats := []uint64{^uint64(0), 1 << 63, 1<<63 + 1, 0xF800000000000000, 0xFFF8000000000000, 0xFFFFFFFF00000000, 0x8000000000000001, 0xFFFFFFFFFFFFFFFE}
+				if i < len(pats)*2 {
+					v = new(big.Int).SetUint64(pats[i%len(pats)])
+				} else {
+					v = new(big.Int).SetUint64(p.big(64).Uint64() | 1<<63)
+				}
+			case "limbs": // carries at the 64-bit limb boundaries: 2^(64k)-1, 2^(64k-1), top bits of a limb set, zero limbs above
+				k := uint(1 + i%3)
+				one := big.NewInt(1)
+				switch (i / 3) % 5 {
+				case 0:
+					v = new(big.Int).Sub(new(big.Int).Lsh(one, 64*k), one)
+				case 1:
+					v = new(big.Int).Lsh(one, 64*k-1)
+				case 2:
+					v = new(big.Int).Sub(new(big.Int).Lsh(one, 64*k), new(big.Int).Lsh(one, 64*k-5))
+				case 3:
+					v = new(big.Int).Add(new(big.Int).Lsh(one, 64*k), new(big.Int).SetUint64(^uint64(0)>>1))
+				default:
+					v = new(big.Int).Lsh(new(big.Int).SetUint64(p.big(64).Uint64()|1<<63), 64*(k-1))
+				}
 			case "half": // windows equal to half the range for many c
 				v, _ = new(big.Int).SetString("0808080808080808080808080808080808080808080808080808080808080808", 16)
 			default:
